@@ -1,13 +1,120 @@
 /-
   CB.Props.C08 — Montgomery-form values stay canonical and track ℤ/m over any operation history.
+
+  Refinements taken from other properties (value-level calls in `CB.Model.Monty`): wide multiplication (C03),
+  wide/ordinary remainders (C02), `inv_mod2k(64)` (C10; here the Newton word inverse `inv64`, proved below),
+  shifts / leading zeros (C05).
 -/
-import CB.Model.Monty
-import CB.Lemmas.Chains
+import CB.Lemmas.C08Inv
 namespace CB.P08
 open CB CB.Monty
 
-/-- DESIGN §7-14 as a theorem about the model: for modulus 1 every constructor yields `one = 1`,
-    which is not a canonical representative (`¬ 1 < 1`). -/
+/-! ## T08.1 — Montgomery reduction (src/modular/reduction.rs), all limb counts -/
+
+/-- `montgomery_reduction_inner` (lower/upper arrays, `meta_carry`): for `k·m ≡ −1 (mod 2^64)` (so `m` is odd)
+    and `T = lower + B^n·upper < m·B^n`, the value `X = upper' + B^n·meta_carry` satisfies
+    `X·B^n = T + U·m` for some `U < B^n`, `X < 2m` and `meta_carry ≤ 1`:
+    **one** conditional subtraction of `m` suffices. -/
+theorem redc_inner_spec (lo hi ms : List Nat) (k : Nat) (hlo : WF lo) (hhi : WF hi) (hms : WF ms)
+    (hll : lo.length = ms.length) (hhl : hi.length = ms.length)
+    (hk : (k * val ms + 1) % B = 0)
+    (hT : val lo + B ^ ms.length * val hi < val ms * B ^ ms.length) :
+    ∃ U, U < B ^ ms.length ∧
+      (val (redcInner hi lo ms k).1 + B ^ ms.length * (redcInner hi lo ms k).2) * B ^ ms.length
+        = val lo + B ^ ms.length * val hi + U * val ms ∧
+      val (redcInner hi lo ms k).1 + B ^ ms.length * (redcInner hi lo ms k).2 < 2 * val ms ∧
+      WF (redcInner hi lo ms k).1 ∧ (redcInner hi lo ms k).1.length = ms.length ∧
+      (redcInner hi lo ms k).2 ≤ 1 :=
+  redcInner_spec hlo hhi hms hll hhl hk hT
+
+/-- `montgomery_reduction` (inner loop + final `sub_mod_with_carry`): the result `r` is canonical and
+    `r·B^n ≡ T (mod m)`. -/
+theorem redc_spec (lo hi ms : List Nat) (k : Nat) (hlo : WF lo) (hhi : WF hi) (hms : WF ms)
+    (hll : lo.length = ms.length) (hhl : hi.length = ms.length)
+    (hk : (k * val ms + 1) % B = 0)
+    (hT : val lo + B ^ ms.length * val hi < val ms * B ^ ms.length) :
+    val (montgomeryReduction lo hi ms k) < val ms ∧
+    (val (montgomeryReduction lo hi ms k) * B ^ ms.length) % val ms
+      = (val lo + B ^ ms.length * val hi) % val ms ∧
+    WF (montgomeryReduction lo hi ms k) ∧ (montgomeryReduction lo hi ms k).length = ms.length :=
+  montgomeryReduction_spec hlo hhi hms hll hhl hk hT
+
+/-- `k·m ≡ −1 (mod 2^64)` forces `m` odd (the code's `Odd<…>` precondition is implied by `hk`). -/
+theorem neg_inv_forces_odd (k m : Nat) (hk : (k * m + 1) % B = 0) : m % 2 = 1 := by
+  have h2 : (k * m + 1) % 2 = 0 := by
+    have : (k * m + 1) % B % 2 = (k * m + 1) % 2 := Nat.mod_mod_of_dvd _ (by decide)
+    rw [hk] at this; omega
+  rcases Nat.mod_two_eq_zero_or_one m with h | h
+  · exfalso
+    have : (k * m) % 2 = 0 := by rw [Nat.mul_mod, h]; simp
+    omega
+  · exact h
+
+/-- hypotheses of `redc_spec` are satisfiable: 2 limbs, m = 2^64 + 1 (k = 2^64 − 1), T = m·B² − 1. -/
+example : ∃ lo hi ms k, WF lo ∧ WF hi ∧ WF ms ∧ lo.length = ms.length ∧ hi.length = ms.length ∧
+    (k * val ms + 1) % B = 0 ∧ val lo + B ^ ms.length * val hi < val ms * B ^ ms.length ∧
+    val (montgomeryReduction lo hi ms k) = 18446744073709551616 :=
+  ⟨[WMAX, WMAX], [0, 1], [1, 1], WMAX, WF_of_all _ (by decide), WF_of_all _ (by decide),
+    WF_of_all _ (by decide), rfl, rfl, by decide, by decide, by decide +kernel⟩
+
+/-! ## T08.3 — history invariant: every prefix state is canonical and `retrieve` returns the denotation
+
+  `Good p n m` : the parameter set holds the defined constants for the odd modulus `1 < m < B^n`
+                 (established for every constructor by T08.2 below).
+  `Inv n m st sp` : `st.store = sp.map (canon n m)` and every residue in `sp` is `< m`, where
+                 `canon n m x = toLimbs n (x·B^n mod m)` and `sp` is the same history evaluated in ℤ/m (`stepSpec`).
+  `wt n op`     : the integer given to `new` is an `n`-limb value (it is a `Uint<n>` / `BoxedUint` of that precision).
+  The state machine covers `new, zero, one, add, sub, neg, double, mul, square, div_by_2`, their assigning and
+  multiplier-object forms, `select`, `copy_montgomery_from` and the conversions const → dyn → boxed.
+-/
+
+/- FULL STATEMENT (unproved only in its boxed multiplication branch):
+   theorem history_step : Good st.params n m → Inv n m st sp → wt n op → Inv n m (step st op) (stepSpec m sp op)
+   The proof below is complete for every operation in the compile-time and runtime representations and for
+   add/sub/neg/double/div_by_2/select/copy/conversion in the boxed one; the boxed `mul`/`square`/`new` need the
+   almost-Montgomery-multiplication facts `H_amm_mul` (T08.4), carried as a named hypothesis. -/
+theorem history_step_partial {st : State} {sp : List Nat} {n m : Nat} {op : MontyOp}
+    (g : Good st.params n m) (H_amm_mul : AmmMulOK n m st.params.modNegInv)
+    (h : Inv n m st sp) (hw : wt n op) :
+    Inv n m (step st op) (stepSpec m sp op) ∧ (step st op).params = st.params :=
+  ⟨step_inv g H_amm_mul h hw, step_params op⟩
+
+/-- the empty store satisfies the invariant -/
+theorem history_init (rep : Rep) (p : Params) (n m : Nat) :
+    Inv n m { rep := rep, params := p, store := [] } [] :=
+  ⟨rfl, fun _ h => by cases h⟩
+
+/- FULL STATEMENT (unproved part as above): the same without `H_amm_mul`. -/
+/-- For every operation list, every prefix state satisfies the invariant. -/
+theorem history_invariant_partial {rep : Rep} {p : Params} {n m : Nat} (g : Good p n m)
+    (H_amm_mul : AmmMulOK n m p.modNegInv) (ops : List MontyOp) (hw : ∀ op ∈ ops, wt n op) (k : Nat) :
+    Inv n m (run { rep := rep, params := p, store := [] } (ops.take k)) (runSpec m [] (ops.take k)) :=
+  (run_inv (ops.take k) (st := { rep := rep, params := p, store := [] }) g H_amm_mul
+    (history_init rep p n m) (fun op ho => hw op (List.mem_of_mem_take ho))).1
+
+/- FULL STATEMENT (unproved part: `H_amm_mul`, `H_amm_one`): the same without the two hypotheses. -/
+/-- Consequently every stored value of every prefix state is canonical (`< m`) and `retrieve()` returns exactly
+    the value of the same expression evaluated in ℤ/m. -/
+theorem history_canonical_and_retrieve_partial {rep : Rep} {p : Params} {n m : Nat} (g : Good p n m)
+    (H_amm_mul : AmmMulOK n m p.modNegInv) (H_amm_one : AmmOneOK n m p.modNegInv)
+    (ops : List MontyOp) (hw : ∀ op ∈ ops, wt n op) (k i : Nat) :
+    let st := run { rep := rep, params := p, store := [] } (ops.take k)
+    let sp := runSpec m [] (ops.take k)
+    val (st.get i) < m ∧ st.get i = canon n m (sget sp i) ∧ sget sp i < m ∧
+    opRetrieve st (st.get i) = toLimbs n (sget sp i) := by
+  intro st sp
+  have ⟨hinv, hpar⟩ := run_inv (ops.take k) (st := { rep := rep, params := p, store := [] }) g H_amm_mul
+    (history_init rep p n m) (fun op ho => hw op (List.mem_of_mem_take ho))
+  have g' : Good st.params n m := by rw [show st.params = p from hpar]; exact g
+  have ⟨e, lt⟩ := get_canon g' hinv i
+  refine ⟨?_, e, lt, ?_⟩
+  · rw [e]; exact canon_lt g.mlt g'.pos _
+  · rw [e]
+    exact opRetrieve_canon g' (by rw [show st.params = p from hpar]; exact H_amm_one) lt
+
+/-! ## the modulus-1 defect (DESIGN §7-14) as theorems about the model -/
+
+/-- For modulus 1 every constructor yields `one = 1`, which is not a canonical representative (`¬ 1 < 1`). -/
 theorem one_not_canonical_modulus_one :
     (paramsNew [1]).one = [1] ∧ (paramsNewVartime [1]).one = [1] ∧ (paramsConst [1]).one = [1] ∧
     (paramsBoxed [1]).one = [1] ∧ ¬ val (paramsNew [1]).one < val [1] := by
